@@ -26,7 +26,7 @@ def coeff_strategy(style):
     if style == 'dyadic':
         return st.sampled_from(DYADIC)
     return st.one_of(st.sampled_from(DYADIC), st.floats(-3, 3).filter(lambda x: abs(x) > 1e-3),
-                     st.sampled_from([1e-6, -1e5, 0.1, 1 / 3, -2.7e3]))
+                     st.sampled_from([1e-6, -1e5, 0.1, 1 / 3, -2.7e3, 1e-9, -3e-12, 1e-20]))
 
 
 # --------------------------------------------------------------------------------------
